@@ -1,7 +1,7 @@
 (** Property C16 -- A serialised grammar pool restores to a behaviourally identical pool.
     Only the property theorems: each is closed by [exact] of a lemma (Proofs16*.v, Gen/GenSerializeObl.v) and followed
     by [Print Assumptions].  Models: Model16.v; per-class action lists: Gen/GenSerialize.v (regenerated from /repo). *)
-From XV Require Import Base.XDefs C16.Model16 C16.Spec16 C16.Proofs16a C16.Proofs16b C16.Proofs16c C16.ModelObj16 C16.Proofs16d C16.Containers16
+From XV Require Import Base.XDefs C16.Model16 C16.Spec16 C16.Proofs16a C16.Proofs16b C16.Proofs16c C16.ModelObj16 C16.Proofs16d C16.Containers16 C16.Helpers16
   Gen.GenSerialize Gen.GenSerializeObl.
 Local Open Scope nat_scope.
 
@@ -94,6 +94,22 @@ Theorem T16_container_keys : inserts_ok pinned_container_inserts ser_container_i
 Proof. exact T16_tmpl_inserts. Qed.
 Print Assumptions T16_container_keys.
 
+(** the static store<X>/load<X> helper pairs, body by body (storeDV/loadDV, storeIC/loadIC, storeElementDecl/
+    loadElementDecl, storeClusive/loadClusive, storeGrammar/loadGrammar): every control-flow path of the store body
+    (null / built-in by name / type id + object ...) writes a sequence that some path of the load body reads item by
+    item; every helper called from a serialize() body or a container has such a pair; and the decision conditions
+    of both bodies are exactly the reviewed ones (Helpers16.v) - e.g. storeDV decides "built-in" by identity with the
+    registry entry, not by name *)
+Theorem T16_helpers_symmetric : forallb helper_ok ser_helpers = true.
+Proof. exact T16_helper_all. Qed.
+Print Assumptions T16_helpers_symmetric.
+Theorem T16_helpers_covered : helpers_covered (ser_parsed ++ ser_containers) ser_helpers = true.
+Proof. exact T16_helper_covered. Qed.
+Print Assumptions T16_helpers_covered.
+Theorem T16_helper_decisions : inserts_ok pinned_helper_conds ser_helper_conds = true.
+Proof. exact T16_helper_conds. Qed.
+Print Assumptions T16_helper_decisions.
+
 (** deserializeGrammars compares the level stamp before anything else is read *)
 Theorem T16_level : forall bs level stream r0 stamp r1 stale qs, 8 <= bs ->
   r_init bs stream = Ok r0 -> r_prim bs 4 true r0 = Ok (stamp, r1) -> stamp <> level ->
@@ -143,3 +159,8 @@ Proof.
   repeat (destruct H1 as [<-|H1]); try contradiction; cbn [ev_addr] in Ha; try discriminate; injection Ha as <-;
   repeat (destruct H2 as [<-|H2]); try contradiction; cbn [ev_addr] in Hb; try discriminate; try reflexivity.
 Qed.
+Example T16_nonvacuous_helper :   (* a store path nobody reads; a changed decision text *)
+  helper_ok (1, [[APrim W4; AStr false]; [APrim W4; APrim W4; AObj 2]], [[APrim W4; AStr false]; [APrim W4]]) = false /\
+  helper_ok (1, [[APrim W4; AStr false]; [APrim W4]], [[APrim W4; AStr false]; [APrim W4]; [APrim W4; APrim W4]]) = true /\
+  inserts_ok [(7, [[1; 2]; [3]])]%N [(7, [[1; 9]; [3]])]%N = false.
+Proof. vm_compute. repeat split; reflexivity. Qed.
